@@ -1,0 +1,30 @@
+//go:build verif
+
+package ioseek
+
+// Contracts for GoVC (see /verif/DESIGN.md). Comment-only: compiles to nothing.
+// Reference model (C20): a bounded section reader over datalen(r.ReaderAt) == r.size bytes.
+//
+//@ spec seekTarget(whence: int, offset: int, cur: int, size: int): int = ite(whence == 0, offset, ite(whence == 1, cur + offset, size + offset))
+//
+//@ func NewReaderAtSeeker
+//@   props C20
+//@   requires size >= 0 && datalen(readerAt) == size
+//@   modifies alloc
+//@   ensures result != nil && result.size == size && result.offset == 0 && result.ReaderAt == readerAt
+//
+//@ func (*ReaderAtSeeker).Seek
+//@   props C20
+//@   requires inv: 0 <= r.offset && r.offset <= r.size
+//@   modifies this.offset
+//@   ensures inv: 0 <= r.offset && r.offset <= r.size
+//@   ensures ok: (whence == 0 || whence == 1 || whence == 2) && 0 <= seekTarget(whence, offset, old(r.offset), r.size) && seekTarget(whence, offset, old(r.offset), r.size) <= r.size ==> result1 == nil && result0 == seekTarget(whence, offset, old(r.offset), r.size) && r.offset == result0
+//@   ensures bad: !((whence == 0 || whence == 1 || whence == 2) && 0 <= seekTarget(whence, offset, old(r.offset), r.size) && seekTarget(whence, offset, old(r.offset), r.size) <= r.size) ==> result1 != nil && result0 == 0 && r.offset == old(r.offset)
+//
+//@ func (*ReaderAtSeeker).Read
+//@   props C20
+//@   requires inv: 0 <= r.offset && r.offset <= r.size && datalen(r.ReaderAt) == r.size && r.ReaderAt != nil
+//@   modifies this.offset, elems(byte), ghost:calls
+//@   ensures inv: 0 <= r.offset && r.offset <= r.size
+//@   ensures adv: 0 <= result0 && result0 <= len(p) && r.offset == old(r.offset) + result0
+//@   ensures one: calls(r.ReaderAt) == old(calls(r.ReaderAt)) + 1
